@@ -58,6 +58,10 @@ T_CP1252 = T_LATIN.replace("Bohrung Süd ±3", "Bohrung „Süd“ – 3 € ™
 # characters str.splitlines() treats as line boundaries but files and StringIO do not (NEL, VT, FF, FS, LS, PS)
 T_EXOTIC = T_LATIN.replace("Bohrung Süd ±3", "Bohrung\x85Süd\x0b3\u2028x").replace("free text ½ ñ ÿ", "free\x0ctext\x1c½\u2029ÿ")
 TEXTS = {"unicode": T_UNICODE, "latin": T_LATIN, "latin-wrapped": T_WRAPPED, "cp1252": T_CP1252, "exotic-linebreaks": T_EXOTIC}
+# files larger than typical block sizes (4, 8, 16, 64 KiB) filled with 2- and 3-byte characters, at three alignments
+for _shift in range(3):
+    _body = "\n".join("x" * _shift + ("é€" * 20 + " ") * 6 + "line %d" % k for k in range(320))
+    TEXTS["long-unicode-%d" % _shift] = T_UNICODE.replace("free text — ünïcödé ✓", "free text — ünïcödé ✓\n" + _body)
 
 CHANNELS = ["str-path", "pathlib", "text-file", "text-file-newline-empty", "stringio", "string"]
 STORAGES = [("utf-8-sig", None), ("utf-8", None), ("utf-8", "utf-8"), ("utf-16", "utf-16"), ("utf-16-le", "utf-16-le"),
@@ -87,6 +91,8 @@ def channel_points():
                 if tname == "cp1252" and codec == "latin-1":
                     continue
                 if tname == "exotic-linebreaks" and codec in ("latin-1", "cp1252"):
+                    continue
+                if tname.startswith("long-unicode") and (codec in ("latin-1", "cp1252") or eol == "\r" or ch.startswith("text-file")):
                     continue
                 for eol in EOLS:
                     pts.append(["chan", tname, ch, codec, enc_arg, eol])
@@ -176,7 +182,19 @@ def alphabet():
     return ops
 
 
-PURE_TEXTS = [T_LATIN, T_WRAPPED.replace("Bohrung", "Zweite Bohrung")]
+# the two texts of the purity part hold DIFFERENT line shapes under the SAME section names (double dots that belong
+# to the mnemonic vs to the description, period-less and colon-less lines, time values, bracketed and numeric units):
+# anything remembered from parsing one of them must not leak into parsing the other
+_SHAPES_A = ("~Curve\nDEPT.M : depth\nCOND..MS/M : conductivity, dots belong to the mnemonic\nTEMP.°C : température\n",
+             "~Parameter\nBHT.°C 35.5 : bottom hole température\nTIME.hh:mm 13:45 : Time: logged\nRUN : 3\nPRES.1000 psi 12 : numeric unit\nÅÄÖ.å äö : éèêë\n")
+_SHAPES_B = ("~Curve\nDEPT.M : depth\nRES.OHMM : deep.. dots belong to the description\nTEMP.[degC] : température\n",
+             "~Parameter\nNOTE.  no colon here\nWHO : a. b. name : x\nDATE. 2020-01-02 14:00:32 : Date: and time\nBHT.°C 35.5 : bottom hole température\n")
+_PA = T_LATIN.replace("~Curve\nDEPT.M : depth\nTEMP.°C : température\n", _SHAPES_A[0]).replace(
+    "~Parameter\nBHT.°C 35.5 : bottom hole température\nÅÄÖ.å äö : éèêë\n", _SHAPES_A[1]).replace("1.0 10.5\n2.0 -999.25\n", "1.0 5 10.5\n2.0 6 -999.25\n")
+_PB = T_WRAPPED.replace("Bohrung", "Zweite Bohrung").replace("~Curve\nDEPT.M : depth\nTEMP.°C : température\n", _SHAPES_B[0]).replace(
+    "~Parameter\nBHT.°C 35.5 : bottom hole température\nÅÄÖ.å äö : éèêë\n", _SHAPES_B[1]).replace("1.0\n10.5\n2.0\n-999.25\n", "1.0\n5\n10.5\n2.0\n6\n-999.25\n")
+assert _PA != T_LATIN and "COND..MS/M" in _PA and "deep.." in _PB
+PURE_TEXTS = [_PA, _PB]
 WRITE_CFGS = [{}, {"version": 1.2, "wrap": True}, {"fmt": "%.2f", "mnemonics_header": True}]
 
 
@@ -293,13 +311,19 @@ def observe():
     """What a user would see after the history: fresh reads, a fresh LASFile, module tables."""
     obs = {}
     for i, t in enumerate(PURE_TEXTS):
-        obs["read%d" % i] = repr(canon.las_tag(lasio.read(t), "strict"))
+        try:
+            obs["read%d" % i] = repr(canon.las_tag(lasio.read(t), "strict"))
+        except Exception as e:
+            obs["read%d" % i] = "raises %s: %s" % (type(e).__name__, str(e)[:200])
     f = lasio.LASFile()
     obs["new"] = repr(canon.las_tag(f, "strict", data=False))
-    s = io.StringIO()
-    g = lasio.read(PURE_TEXTS[0])
-    g.write(s)
-    obs["write0"] = s.getvalue()
+    try:
+        s = io.StringIO()
+        g = lasio.read(PURE_TEXTS[0])
+        g.write(s)
+        obs["write0"] = s.getvalue()
+    except Exception as e:
+        obs["write0"] = "raises %s: %s" % (type(e).__name__, str(e)[:200])
     for k, v in module_snapshot():
         obs["mod:" + k] = v
     return obs
